@@ -733,7 +733,9 @@ Proof.
             match goal with E : thr _ _ = _ :: _ |- _ =>
               destruct (dereg_top_started _ _ c _ _ HE E) as [_ [?|?]];
               [cbn; now rewrite Nat.eqb_refl|congruence|congruence] end).
-  - intros _. split; auto. discriminate.
+  - intros [= <-]. split; auto. intros t' Hx.
+    match goal with E : inl_ready _ _ = true |- _ => rewrite Hx in E; cbn in E; apply Nat.eqb_eq in E end.
+    congruence.
   - intros Hd. exfalso. destruct (HD0 Hd) as [Hc _].
     assert (cst (cbs s n) = CLinked) by (apply (B_in _ HB); rewrite Heql0; now left).
     intuition congruence.
@@ -1511,12 +1513,12 @@ Qed.
 (* ------------------------------------------------------------------------------------------ *)
 (* Deadlock freedom                                                                           *)
 
-Definition dereg_ready (r : cbrec) : bool :=
+Definition dereg_ready (t : nat) (r : cbrec) : bool :=
   match dst r with
-  | DNone => match cst r, xst r with
-             | CInl, XEnded => true
-             | CLinked, _ | CPopped, _ => true
-             | _, _ => false
+  | DNone => match cst r with
+             | CInl => inl_ready t (xst r)
+             | CLinked | CPopped => true
+             | _ => false
              end
   | _ => false
   end.
@@ -1527,7 +1529,7 @@ Definition dereg_ready (r : cbrec) : bool :=
 Definition client_wait (s : st) (t : nat) : bool :=
   match thr s t with
   | FRun _ (IReg c :: _) :: _ => match cst (cbs s c) with CNew => false | _ => true end
-  | FRun _ (IDereg c :: _) :: _ => negb (dereg_ready (cbs s c))
+  | FRun _ (IDereg c :: _) :: _ => negb (dereg_ready t (cbs s c))
   | FRun _ (IWait c :: _) :: _ => negb (regd (cbs s c))
   | _ => false
   end.
@@ -1554,7 +1556,7 @@ Proof.
     + exfalso. destruct i.
       * destruct (cst (cbs s c)); try discriminate. destruct (stop s); discriminate.
       * unfold dereg_ready in Hc. destruct (dst (cbs s c)); try discriminate.
-        destruct (cst (cbs s c)), (xst (cbs s c)); discriminate.
+        destruct (cst (cbs s c)); try discriminate. destruct (inl_ready t (xst (cbs s c))); discriminate.
       * destruct (stop s); discriminate.
       * discriminate.
       * destruct (regd (cbs s c)); discriminate.
@@ -1907,4 +1909,24 @@ Proof.
   unfold wfb. intros H. apply andb_true_iff in H. destruct H as [H1 H2]. intros c. split.
   - rewrite cnti_reg_ids. now apply nodupb_count.
   - rewrite cnti_dereg_ids. now apply nodupb_count.
+Qed.
+
+(* a callback that runs inline inside its own registration (stop was already requested) may
+   destroy its registration from inside that execution, on whatever thread this happens: the
+   destructor returns at once, without touching the source (no lock, no wait) *)
+Theorem inline_self_dereg_nonblocking progs bods sched :
+  let s := fst (run step sched (init progs bods, [])) in
+  forall t c k oc k' rest,
+    In (FRun (Some c) k) (thr s t) -> cst (cbs s c) = CInl -> dst (cbs s c) = DNone ->
+    thr s t = FRun oc (IDereg c :: k') :: rest ->
+    exists s', step t s = Some (s', [(t, EDeregBegin c); (t, EDeregRet c)]) /\
+               thr s' t = FRun oc k' :: rest /\ locked s' = locked s /\ lst s' = lst s.
+Proof.
+  intros s t c k oc k' rest Hin Hc Hd Et.
+  destruct (Inv_run progs bods sched) as [HA HB HC HD HE HCT HT]. fold s in HB.
+  pose proof (B_fr _ HB c t) as HF. pose proof (in_run_nfr _ _ _ Hin) as Hn.
+  assert (Hx : inl_ready t (xst (cbs s c)) = true).
+  { destruct (xst (cbs s c)) as [|t'|]; cbn in *; try lia. destruct (Nat.eqb t' t); auto; lia. }
+  unfold step. rewrite Et. cbv zeta. rewrite Hd, Hc, Hx.
+  eexists. split; [reflexivity|]. cbn. rewrite upd_eq. auto.
 Qed.
